@@ -1,50 +1,63 @@
 """C17 — sorting and regrouping options only reorder or merge postings.
 
 Theorems: lean/LedgerModel/Props/C17.lean over Model/Regroup.lean (sort_posts /
-compare_items / sort_value_is_less_than, truncate_xacts, collapse_posts,
-subtotal_posts, by_payee_posts, day_of_week_posts, calc_posts).
+sort_xacts / compare_items / sort_value_is_less_than, truncate_xacts,
+collapse_posts, subtotal_posts, by_payee_posts, day_of_week_posts, calc_posts,
+and their composition in chain.cc order, for any valuation of the postings).
 Tie: (a) Gen/Regroup.lean re-extracted from filters.cc/.h, compare.cc, value.cc,
 post.cc, chain.cc on every run (tools/extract_regroup.py): the truncation
-comparisons, the sort algorithm and the `.simplified()` of sort keys are
-interpreted into the model, the mirrored function bodies and the handler order
-are pinned by `rfl`; (b) driver op regroup.run against paired
-`ledger reg --empty --format …` runs (plain vs option) on generated journals.
-Oracle (plain Python on ledger's own rows, Fractions): permutation / ordered by
-key / ties in plain order for --sort; first / last N transaction groups for
---head / --tail; per-group and grand-total per-commodity sums for --subtotal,
---collapse, --by-payee, --dow, --depth.
+comparisons, the sort algorithm, the `.simplified()` of sort keys and the
+comparator of collapse's totals map are interpreted into the model, the
+mirrored function bodies and the handler order are pinned by `rfl`; (b) driver
+ops regroup.run (journal AST) and regroup.rows (ledger's own plain rows, the
+valuation being data) against paired `ledger reg --empty --format …` runs.
+Oracle (plain Python on ledger's own rows, Fractions): a reference evaluation of
+the option set on the *denotations* of the plain register's rows - permutation /
+ordered by key / ties in plain order for --sort and, per transaction, for
+--sort-xacts; the union window of --head N / --tail M (negative counts
+included) over transaction groups; per-group and grand-total per-commodity sums
+for --subtotal, --collapse, --by-payee, --dow, --depth alone and stacked in
+chain.cc order, with and without -B.
 """
-import os, sys, re, json, copy, datetime, tempfile, itertools
+import os, sys, re, json, copy, datetime, tempfile, itertools, functools
 from fractions import Fraction
 import vflib, jgen
 from vflib import Check
 
 MANIFEST = dict(
-    text="Machine-checked proof (Lean 4, 27 theorems, every posting list, no size bound) about a model of ledger's sort_posts / compare_items, truncate_xacts, collapse_posts, "
-         "subtotal_posts, by_payee_posts and day_of_week_posts handlers, for all posting lists: --sort yields a permutation that is "
-         "ordered by the key with ties in input order (and is the only such arrangement) whenever the key comparison is a strict weak "
-         "order, which is proved for date, payee, account and single-commodity amount keys, for amounts that all carry a commodity, "
-         "and for compound keys; the --head/--tail window logic equals take N / drop (len-N) on the transaction groups for every N>=0; "
-         "every --subtotal/--collapse/--by-payee/--dow/--depth row and the grand total equal the per-commodity sums of the member "
-         "postings. The window comparisons, the sort algorithm and the handler bodies are re-extracted from the source on every run, "
-         "the model is run against the rebuilt binary on paired reg runs, and an independent Fraction oracle on ledger's own rows "
-         "supplies the failing input.",
+    text="Machine-checked proof (Lean 4, every posting list and every valuation of the postings, no size bound) about a model of "
+         "ledger's sort_posts / sort_xacts / compare_items, truncate_xacts, collapse_posts, subtotal_posts, by_payee_posts and "
+         "day_of_week_posts handlers and their composition in chain.cc order: --sort (and --sort-xacts per transaction) yields a "
+         "permutation that is ordered by the key with ties in input order, and is the only such arrangement, whenever the key "
+         "comparison is a strict weak order - proved for date, payee, account, single-commodity amounts, amounts that all carry a "
+         "commodity, and compound keys; the truncate_xacts handler equals the union window {i < N} u {i >= len-M} on the transaction "
+         "groups for every --head N / --tail M (take N / drop len-N alone; negative counts drop from the other end); every "
+         "--subtotal/--collapse/--by-payee/--dow/--depth row and the grand total equal the per-commodity sums of the member postings, "
+         "also for two stacked regrouping options (guarded where the code loses a multi-commodity value), and --depth rows come in "
+         "account-name order. The window comparisons, the sort algorithm, the map comparator and the handler bodies are re-extracted "
+         "from the source on every run; the model is run against the rebuilt binary on paired reg runs; an independent Fraction "
+         "reference on ledger's own rows supplies the failing input.",
     note="Modelled, not verified: std::stable_sort is a stable sort (the model's merge sort is proved to be the unique stable "
-         "arrangement, so the algorithm does not matter when the comparison is a strict weak order); --depth rows are compared as a "
-         "set per transaction (their address order is C19's finding); amounts with costs/lots, elided amounts (oracle only), "
-         "--sort-xacts, negative N and combinations of two regrouping options are outside the model; --subtotal/--by-payee/--dow "
-         "refuse (error, modelled) an account that has both virtual and real postings. Finding (C17.sort_ordered_everywhere_false, "
-         "replayed on the binary): the amount sort key is not a strict weak order when a zero amount (or an amount without "
-         "commodity) meets two commodities, so `--sort amount` output is then not ordered by the key.",
+         "arrangement, so the algorithm does not matter when the comparison is a strict weak order); lots/annotated commodities are "
+         "opaque commodity names taken from ledger's own plain rows (regroup.rows), the valuation (-B) is data; elided amounts are "
+         "checked by the oracle only; --subtotal/--by-payee/--dow refuse (error, modelled) an account that has both virtual and "
+         "real postings. Findings replayed on the binary: (1) the amount sort key is not a strict weak order when a zero amount (or "
+         "an amount without commodity) meets two commodities; (2) subtotal_posts reads post.amount, so a multi-commodity row handed "
+         "over by --by-payee/--dow is lost or refused (--by-payee --subtotal), and (3) it ignores the amount expression, so "
+         "-B --subtotal/--by-payee/--dow report lots, not costs.",
     technique="Lean 4 proof over a hand-written model + regenerated comparison operators/bodies + differential model/binary check + Fraction oracle",
     ref="DESIGN.md §5 C17")
 
-FMT = "%(beg_line)|%(xact.beg_line)|%(date)|%(virtual ? 1 : 0)|%(payee)|%(account)|%(verif_rational(amount))|%(verif_rational(total))\n"
+FMT = ("%(beg_line)|%(xact.beg_line)|%(date)|%(virtual ? 1 : 0)|%(payee)|%(account)|%(verif_rational(amount))|"
+       "%(verif_rational(amount_expr))|%(verif_rational(total))\n")
 EPOCH = datetime.date(1970, 1, 1)
 ZERO_FP = "C17:compare.cc:push_sort_value:zero-or-bare-amount-key"
+COMPOUND_FP = "C17:filters.cc:subtotal_posts:compound-input-lost"
+EXPR_FP = "C17:filters.cc:subtotal_posts:amount-expression-ignored"
 
 SORT_KEYS = ["date", "-date", "payee", "-payee", "account", "-account", "amount", "-amount", "date,-amount", "payee,account",
              "-date,amount", "account,-payee,amount"]
+DAYNAMES = ["Sundays", "Mondays", "Tuesdays", "Wednesdays", "Thursdays", "Fridays", "Saturdays"]
 
 
 # ---------------------------------------------------------------------------
@@ -52,20 +65,25 @@ SORT_KEYS = ["date", "-date", "payee", "-payee", "account", "-account", "amount"
 
 
 class Row:
-    __slots__ = ("line", "xline", "day", "virt", "payee", "account", "amount", "total")
+    __slots__ = ("line", "xline", "day", "virt", "payee", "account", "amount", "value", "total")
 
-    def __init__(self, line, xline, day, virt, payee, account, amount, total):
+    def __init__(self, line, xline, day, virt, payee, account, amount, value, total):
         self.line, self.xline, self.day, self.virt = line, xline, day, virt
-        self.payee, self.account, self.amount, self.total = payee, account, amount, total
+        self.payee, self.account, self.amount, self.value, self.total = payee, account, amount, value, total
 
     def ident(self):
-        return (self.line, self.xline, self.day, self.payee, self.account, self.amount)
+        return (self.line, self.xline, self.day, self.payee, self.account, self.amount, self.value)
 
     def full(self):
         return self.ident() + (self.total,)
 
     def text(self):
-        return "%d|%d|%d|%s|%s|%s|%s" % self.full()
+        return "%d|%d|%d|%s|%s|%s|%s|%s" % self.full()
+
+    def input_text(self):
+        """the row as input of the model op regroup.rows"""
+        return "%d|%d|%d|%d|%s|%s|%s|%s" % (self.line, self.xline, self.day, 1 if self.virt else 0, self.payee, self.account,
+                                              self.amount, self.value)
 
 
 def parse_rows(out):
@@ -74,11 +92,11 @@ def parse_rows(out):
         if not ln:
             continue
         parts = ln.split("|")
-        if len(parts) != 8:
+        if len(parts) != 9:
             return None
         y, m, d = parts[2].split("/")
         day = (datetime.date(int(y), int(m), int(d)) - EPOCH).days
-        rows.append(Row(int(parts[0]), int(parts[1]), day, parts[3] == "1", parts[4], parts[5], parts[6], parts[7]))
+        rows.append(Row(int(parts[0]), int(parts[1]), day, parts[3] == "1", parts[4], parts[5], parts[6], parts[7], parts[8]))
     return rows
 
 
@@ -125,12 +143,18 @@ def single(v):
     return (comm, Fraction(int(n), int(dd)))
 
 
+def fmt_den(d):
+    return "{" + ", ".join("%s: %s" % (c or '""', q) for c, q in sorted(d.items())) + "}"
+
+
 def filter_args(f):
     a = []
     if f.get("real"):
         a.append("--real")
     if f.get("cleared"):
         a.append("--cleared")
+    if f.get("basis"):
+        a.append("-B")
     if f.get("acct"):
         a.append(f["acct"])
     return a
@@ -140,25 +164,77 @@ def filter_spec(f):
     return "real=%d,cleared=%d,acct=%s" % (1 if f.get("real") else 0, 1 if f.get("cleared") else 0, f.get("acct") or "")
 
 
-def opt_args(opt):
-    k, _, v = opt.partition(":")
-    if k == "plain":
-        return []
-    if k == "sort":
-        return ["--sort", v]
-    if k in ("head", "tail"):
-        return ["--" + k, v]
-    if k == "depth":
-        return ["--depth", v]
-    return {"subtotal": ["--subtotal"], "collapse": ["--collapse"], "bypayee": ["--by-payee"], "dow": ["--dow"]}[k]
+def filter_key(f):
+    return filter_spec(f) + (",basis" if f.get("basis") else "")
+
+
+class Opts:
+    """an option set: '+'-joined tokens plain | dow | bypayee | subtotal | collapse | depth:N | sort:KEYS | sortx:KEYS | head:N | tail:N"""
+
+    def __init__(self, text):
+        self.text = text
+        self.pre, self.subtotal, self.collapse, self.depth, self.sort, self.head, self.tail = None, False, False, None, None, None, None
+        for t in text.split("+"):
+            k, _, v = t.partition(":")
+            if k == "plain":
+                pass
+            elif k == "dow":
+                self.pre = "dow"
+            elif k == "bypayee":
+                self.pre = self.pre or "bypayee"          # chain.cc: `if dow … else if by_payee`
+            elif k == "subtotal":
+                self.subtotal = True
+            elif k == "collapse":
+                self.collapse = True
+            elif k == "depth":
+                self.depth = int(v)
+            elif k == "sort":
+                self.sort = (False, v)
+            elif k == "sortx":
+                self.sort = (True, v)
+            elif k == "head":
+                self.head = int(v)
+            elif k == "tail":
+                self.tail = int(v)
+            else:
+                raise ValueError(t)
+
+    def regroups(self):
+        return bool(self.pre or self.subtotal or self.collapse or self.depth is not None)
+
+    def kind(self):
+        ks = []
+        for t in self.text.split("+"):
+            ks.append(t.partition(":")[0])
+        return "+".join(ks)
+
+    def args(self):
+        a = []
+        for t in self.text.split("+"):
+            k, _, v = t.partition(":")
+            if k == "plain":
+                continue
+            if k == "sort":
+                a += ["--sort", v]
+            elif k == "sortx":
+                a += ["--sort-xacts", v]
+            elif k in ("head", "tail", "depth"):
+                a.append("--%s=%s" % (k, v))
+            else:
+                a.append({"subtotal": "--subtotal", "collapse": "--collapse", "bypayee": "--by-payee", "dow": "--dow"}[k])
+        return a
 
 
 def run_ledger(path, f, opt):
     """-> ('ok', rows) | ('err', kind, text)"""
-    rc, out, err = vflib.ledger_run(["-f", path, "reg", "--empty", "--format", FMT] + opt_args(opt) + filter_args(f))
+    rc, out, err = vflib.ledger_run(["-f", path, "reg", "--empty", "--format", FMT] + Opts(opt).args() + filter_args(f))
     if rc != 0 or err.strip():
-        kind = "virt-mix" if "cannot accept virtual and non-virtual postings to the same account" in err else \
-               (vflib.err_kind(err) or ("rc=%s" % rc))
+        if "cannot accept virtual and non-virtual postings to the same account" in err:
+            kind = "virt-mix"
+        elif "uninitialized amount" in err:
+            kind = "null-amount"
+        else:
+            kind = vflib.err_kind(err) or ("rc=%s" % rc)
         return ("err", kind, err.strip()[-400:])
     rows = parse_rows(out)
     if rows is None:
@@ -167,7 +243,7 @@ def run_ledger(path, f, opt):
 
 
 # ---------------------------------------------------------------------------
-# the oracle: the property as a relation between ledger's plain rows and its rows under an option
+# the oracle: a reference evaluation of the option set on denotations of the plain register's rows
 
 
 def amount_less(x, y):
@@ -181,14 +257,27 @@ def amount_less(x, y):
     return cx.encode() < cy.encode()
 
 
+class Cell:
+    """one row of a (reference) register: identity of its transaction, the fields a
+    sort key can see, and the denotation of its value"""
+    __slots__ = ("xact", "day", "vday", "payee", "account", "d", "amt", "virt", "src", "pos")
+
+    def __init__(self, xact, day, vday, payee, account, d, amt, virt, src, pos=0):
+        self.xact, self.day, self.vday, self.payee, self.account = xact, day, vday, payee, account
+        self.d, self.amt, self.virt, self.src, self.pos = d, amt, virt, src, pos
+
+
 def key_less_fn(keyspec):
-    """Strict order 'row a sorts before row b' for a --sort key list: dates by
-    calendar, payee/account as byte strings, amounts by amount_less; a leading
-    '-' reverses that key; later keys break ties."""
+    """Strict order 'a sorts before b' for a --sort key list, on Cells or Rows:
+    dates by calendar, payee/account as byte strings, amounts by amount_less; a
+    leading '-' reverses that key; later keys break ties."""
     keys = []
     for k in keyspec.split(","):
         inv = k.startswith("-")
         keys.append((k.lstrip("-"), inv))
+
+    def amt_of(a):
+        return a.amt if isinstance(a, Cell) else single(a.amount)
 
     def lt(name, a, b):
         if name == "date":
@@ -197,7 +286,7 @@ def key_less_fn(keyspec):
             return a.payee.encode() < b.payee.encode()
         if name == "account":
             return a.account.encode() < b.account.encode()
-        x, y = single(a.amount), single(b.amount)
+        x, y = amt_of(a), amt_of(b)
         if x is None or y is None:
             return False
         return amount_less(x, y)
@@ -230,18 +319,191 @@ def is_swo(rows, less):
     return True
 
 
-def check_totals(rows, what):
-    """running total = cumulative per-commodity sum of the amounts, row by row"""
+def weekday(day):
+    return (EPOCH + datetime.timedelta(days=day)).isoweekday() % 7   # 0 = Sunday
+
+
+def depth_account(acct, n):
+    return ":".join(acct.split(":")[:n])
+
+
+def runs_of(cells):
+    gs = []
+    for c in cells:
+        if gs and gs[-1][0].xact == c.xact:
+            gs[-1].append(c)
+        else:
+            gs.append([c])
+    return gs
+
+
+class Refusal(Exception):
+    pass
+
+
+def merge(cells, xact, payee, keyf=lambda c: c.account):
+    """one transaction `xact`: a cell per key (byte order), each the sum of its members"""
+    by = {}
+    for c in cells:
+        by.setdefault(keyf(c), []).append(c)
+    day = min(c.day for c in cells)
+    vday = max(c.vday for c in cells)
+    out = []
+    for k in sorted(by, key=lambda s: s.encode()):
+        ms = by[k]
+        d = dsum(m.d for m in ms)
+        amt = None
+        out.append(Cell(xact, day, vday, payee, k, d, amt, all(m.virt for m in ms), [s for m in ms for s in m.src]))
+    return out
+
+
+def subtotal_stage(cells, xact, payee):
+    """subtotal_posts: refuses an account that has both virtual and real postings"""
+    seen = {}
+    for c in cells:
+        if c.account in seen and seen[c.account] != c.virt:
+            raise Refusal("virt-mix")
+        seen.setdefault(c.account, c.virt)
+    return merge(cells, xact, payee)
+
+
+def reference(plain, o):
+    """the register the property demands under option set `o`, as Cells with running
+    totals: list of (Cell, total denotation).  Raises Refusal for the documented
+    virt-mix refusal."""
+    cells = [Cell(("x", r.xline), r.day, r.day, r.payee, r.account, den(r.value), single(r.amount), r.virt, [i])
+             for i, r in enumerate(plain)]
+    if o.pre == "bypayee":
+        out = []
+        real = {c.account for c in cells if not c.virt}
+        for p in sorted({c.payee for c in cells}, key=lambda s: s.encode()):
+            out += subtotal_stage([c for c in cells if c.payee == p], ("p", p), p)
+        for c in out:
+            c.virt = c.account not in real
+        cells = out
+    elif o.pre == "dow":
+        out = []
+        real = set()
+        for i in range(7):
+            sel = [c for c in cells if weekday(c.day) == i]
+            if sel:
+                day_rows = subtotal_stage(sel, ("d", i), DAYNAMES[i])
+                real |= {c.account for c in sel if not c.virt}      # the account flags accumulate day after day
+                for c in day_rows:
+                    c.virt = c.account not in real
+                out += day_rows
+        cells = out
+    if o.subtotal and cells:
+        cells = subtotal_stage(cells, ("s",), None)
+    if o.collapse or o.depth is not None:
+        depth = o.depth or 0
+        passthrough = o.collapse and o.depth is None
+        out = []
+        for k, g in enumerate(runs_of(cells)):
+            if depth == 0 and passthrough and len(g) == 1:
+                out += g
+            else:
+                keyf = (lambda c: "<Total>") if depth == 0 else (lambda c: depth_account(c.account, depth))
+                out += merge(g, ("c", k), g[-1].payee, keyf)
+        cells = out
+    for i, c in enumerate(cells):
+        c.pos = i
+    if o.sort:
+        less = key_less_fn(o.sort[1])
+        cmp = functools.cmp_to_key(lambda a, b: -1 if less(a, b) else (1 if less(b, a) else 0))
+        if o.sort[0]:
+            cells = [c for g in runs_of(cells) for c in sorted(g, key=cmp)]
+        else:
+            cells = sorted(cells, key=cmp)
     acc = {}
-    for i, r in enumerate(rows):
-        acc = dsum([acc, den(r.amount)])
-        if den(r.total) != acc:
-            return "%s: running total of row %d (%s) is %s, the amounts so far sum to %s" % (what, i, r.text(), r.total, fmt_den(acc))
+    rows = []
+    for c in cells:
+        acc = dsum([acc, c.d])
+        rows.append((c, acc))
+    if o.head is not None or o.tail is not None:
+        h, t = o.head or 0, o.tail or 0
+        gs = []
+        for r in rows:
+            if gs and gs[-1][0][0].xact == r[0].xact:
+                gs[-1].append(r)
+            else:
+                gs.append([r])
+        n = len(gs)
+        keep = []
+        for i, g in enumerate(gs):
+            by_head = (h > 0 and i < h) or (h < 0 and i >= -h)
+            by_tail = (t > 0 and n - i <= t) or (t < 0 and n - i > -t)
+            if by_head or by_tail:
+                keep += g
+        rows = keep
+    return rows
+
+
+def sort_order_ok(o, rows, cellsets):
+    """for a comparison that is not a strict weak order no reference arrangement
+    exists: check directly that no row is followed by one that sorts before it"""
+    less = key_less_fn(o.sort[1])
+    for seg in cellsets:
+        for i in range(len(seg)):
+            for j in range(i + 1, len(seg)):
+                if less(seg[j], seg[i]):
+                    return "--%s %s: row (%s) comes before row (%s) although the second sorts first" % (
+                        "sort-xacts" if o.sort[0] else "sort", o.sort[1], seg[i].text(), seg[j].text())
     return None
 
 
-def fmt_den(d):
-    return "{" + ", ".join("%s: %s" % (c or '""', q) for c, q in sorted(d.items())) + "}"
+def oracle(plain, opt, res):
+    """None when the rows `res` ledger printed under `opt` stand in the relation
+    the property demands to the rows `plain` of the plain register, else a
+    description of the first discrepancy."""
+    o = Opts(opt)
+    try:
+        want = reference(plain, o)
+    except Refusal as e:
+        if res[0] == "err" and (res[1] == str(e) or (res[1] in ("virt-mix", "null-amount") and o.pre and o.subtotal)):
+            return None          # with two subtotal-family stages the handlers run interleaved: either refusal may come first
+        if res[0] == "err":
+            return "%s failed with %s (%s), expected the %s refusal" % (opt, res[1], res[2][-120:], e)
+        return "%s printed rows although an account mixes virtual and real postings" % opt
+    if res[0] == "err":
+        return "%s failed with %s although the plain register succeeds: %s" % (opt, res[1], res[2][-160:])
+    rows = res[1]
+    # running totals are the cumulative sums of the amounts shown (the amount expression), row by row
+    if o.head is None and o.tail is None:
+        acc = {}
+        for i, r in enumerate(rows):
+            acc = dsum([acc, den(r.value)])
+            if den(r.total) != acc:
+                return "%s: running total of row %d (%s) is %s, the amounts so far sum to %s" % (opt, i, r.text(), r.total, fmt_den(acc))
+    if o.sort and not o.regroups():
+        # --sort / --sort-xacts on the plain register: permutation, ordered, stable - as relations on ledger's own rows
+        if o.head is None and o.tail is None:
+            if sorted(r.ident() for r in rows) != sorted(r.ident() for r in plain):
+                return "%s: rows are not a permutation of the plain register's rows" % opt
+            segs = [rows]
+            if o.sort[0]:
+                segs, i = [], 0
+                for g in groups_by_xact(plain):
+                    segs.append(rows[i:i + len(g)])
+                    if sorted(r.ident() for r in segs[-1]) != sorted(r.ident() for r in g):
+                        return "--sort-xacts: rows %d.. are not the postings of the transaction at line %d" % (i, g[0].xline)
+                    i += len(g)
+            e = sort_order_ok(o, rows, segs)
+            if e:
+                return e
+    if len(rows) != len(want):
+        return "%s: %d rows, the option set applied to the plain register gives %d" % (opt, len(rows), len(want))
+    for i, (r, (c, tot)) in enumerate(zip(rows, want)):
+        got = (r.day, r.account, den(r.value))
+        exp = (c.day, c.account, c.d)
+        if got != exp or (c.payee is not None and r.payee != c.payee):
+            return "%s: row %d is %s; its group (plain rows %s) gives day %d, payee %r, account %s, amount %s" % (
+                opt, i, r.text(), [plain[s].line for s in c.src][:8], c.day, c.payee, c.account, fmt_den(c.d))
+        if den(r.total) != tot:
+            return "%s: row %d (%s): running total %s, expected %s" % (opt, i, r.text(), r.total, fmt_den(tot))
+        if len(c.src) == 1 and not o.regroups() and r.ident() != plain[c.src[0]].ident():
+            return "%s: row %d (%s) is not the plain register's row %s" % (opt, i, r.text(), plain[c.src[0]].text())
+    return None
 
 
 def groups_by_xact(rows):
@@ -252,165 +514,6 @@ def groups_by_xact(rows):
         else:
             gs.append([r])
     return gs
-
-
-def weekday(day):
-    return (EPOCH + datetime.timedelta(days=day)).isoweekday() % 7   # 0 = Sunday
-
-
-def depth_account(acct, n):
-    return ":".join(acct.split(":")[:n])
-
-
-def virt_mixed(rows, keyf):
-    seen = {}
-    for r in rows:
-        k = keyf(r)
-        if k in seen and seen[k] != r.virt:
-            return True
-        seen.setdefault(k, r.virt)
-    return False
-
-
-def oracle(plain, opt, res):
-    """None when the rows `res` ledger printed under `opt` stand in the relation
-    the property demands to the rows `plain` of the plain register, else a
-    description of the first discrepancy."""
-    k, _, v = opt.partition(":")
-    if res[0] == "err":
-        if res[1] == "virt-mix" and k in ("subtotal", "bypayee", "dow"):
-            keyf = {"subtotal": lambda r: r.account, "bypayee": lambda r: (r.payee, r.account),
-                    "dow": lambda r: (weekday(r.day), r.account)}[k]
-            if virt_mixed(plain, keyf):
-                return None          # the documented refusal
-            return "%s refused (%s) although no account mixes virtual and real postings" % (opt, res[1])
-        return "%s failed with %s although the plain register succeeds: %s" % (opt, res[1], res[2])
-    rows = res[1]
-    if k == "plain":
-        return check_totals(rows, "plain")
-    if k == "sort":
-        if sorted(r.ident() for r in rows) != sorted(r.ident() for r in plain):
-            return "--sort %s: rows are not a permutation of the plain register's rows" % v
-        pos = {}
-        for i, r in enumerate(plain):
-            pos.setdefault(r.ident(), []).append(i)
-        idx = []
-        used = {}
-        for r in rows:
-            n = used.get(r.ident(), 0)
-            idx.append(pos[r.ident()][n])
-            used[r.ident()] = n + 1
-        less = key_less_fn(v)
-        for i in range(len(rows)):
-            for j in range(i + 1, len(rows)):
-                if less(rows[j], rows[i]):
-                    return "--sort %s: row %d (%s) comes before row %d (%s) although the second sorts first" % (
-                        v, i, rows[i].text(), j, rows[j].text())
-                if not less(rows[i], rows[j]) and idx[i] > idx[j]:
-                    return "--sort %s: rows %d (%s) and %d (%s) tie on the key but are not in input order" % (
-                        v, i, rows[i].text(), j, rows[j].text())
-        return check_totals(rows, "--sort " + v)
-    if k in ("head", "tail"):
-        n = int(v)
-        gs = groups_by_xact(plain)
-        keep = gs[:n] if k == "head" else (gs[len(gs) - n:] if n < len(gs) else gs)
-        if n == 0:
-            keep = []
-        want = [r.full() for g in keep for r in g]
-        got = [r.full() for r in rows]
-        if want != got:
-            return "--%s %d: expected the %s %d of %d transactions (%d rows), got %d rows" % (
-                k, n, "first" if k == "head" else "last", min(n, len(gs)), len(gs), len(want), len(got))
-        return None
-    # regrouping: (group key of a plain row) -> expected sums; rows are matched by their key
-    if k == "collapse":
-        gs = groups_by_xact(plain)
-        if len(rows) != len(gs):
-            return "--collapse: %d rows for %d transactions" % (len(rows), len(gs))
-        for g, r in zip(gs, rows):
-            if len(g) == 1:
-                if r.ident() != g[0].ident():
-                    return "--collapse: single-posting transaction at line %d is not passed through: %s" % (g[0].xline, r.text())
-            else:
-                want = dsum(den(x.amount) for x in g)
-                if den(r.amount) != want or r.payee != g[-1].payee or r.day != min(x.day for x in g):
-                    return "--collapse: transaction at line %d: row %s, members sum to %s" % (g[0].xline, r.text(), fmt_den(want))
-    elif k == "depth":
-        n = int(v)
-        gs = groups_by_xact(plain)
-        i = 0
-        for g in gs:
-            want = {}
-            for x in g:
-                a = depth_account(x.account, n) if n > 0 else "<Total>"
-                want[a] = dsum([want.get(a, {}), den(x.amount)])
-            chunk = rows[i:i + len(want)]
-            i += len(want)
-            got = {}
-            for r in chunk:
-                if r.account in got:
-                    return "--depth %d: transaction at line %d: account %s reported twice" % (n, g[0].xline, r.account)
-                got[r.account] = den(r.amount)
-            if got != want:
-                return "--depth %d: transaction at line %d: rows %s, members sum to %s" % (
-                    n, g[0].xline, {a: fmt_den(d) for a, d in got.items()}, {a: fmt_den(d) for a, d in want.items()})
-        if i != len(rows):
-            return "--depth %d: %d rows, expected %d" % (n, len(rows), i)
-    else:
-        keyf = {"subtotal": lambda r: ("", r.account), "bypayee": lambda r: (r.payee, r.account),
-                "dow": lambda r: (weekday(r.day), r.account)}[k]
-        want = {}
-        for x in plain:
-            want[keyf(x)] = dsum([want.get(keyf(x), {}), den(x.amount)])
-        names = ["Sundays", "Mondays", "Tuesdays", "Wednesdays", "Thursdays", "Fridays", "Saturdays"]
-        got = {}
-        for r in rows:
-            if k == "subtotal":
-                key = ("", r.account)
-            elif k == "bypayee":
-                key = (r.payee, r.account)
-            else:
-                if r.payee not in names:
-                    return "--dow: unexpected title %r" % r.payee
-                key = (names.index(r.payee), r.account)
-            if key in got:
-                return "--%s: group %s reported twice" % (k, key)
-            got[key] = den(r.amount)
-        if got != want:
-            bad = [kk for kk in set(got) | set(want) if got.get(kk) != want.get(kk)]
-            kk = sorted(bad, key=str)[0]
-            return "--%s: group %s: ledger reports %s, the member postings sum to %s" % (
-                k, kk, fmt_den(got[kk]) if kk in got else "nothing", fmt_den(want[kk]) if kk in want else "nothing (no member)")
-    e = check_totals(rows, "--" + k)
-    if e:
-        return e
-    grand = dsum(den(x.amount) for x in plain)
-    last = den(rows[-1].total) if rows else {}
-    if last != grand:
-        return "--%s: grand total %s differs from the sum of the plain register %s" % (k, fmt_den(last), fmt_den(grand))
-    return None
-
-
-# ---------------------------------------------------------------------------
-# canonical forms for the tie (model rows vs ledger rows)
-
-
-def canon_rows(rows_text, opt, plain_groups=None):
-    """rows as text lines; for --depth the rows of one transaction are sorted by
-    account and only the last running total of each transaction is kept (the
-    order inside a transaction is the address order of filters.h:431)."""
-    if not opt.startswith("depth"):
-        return rows_text
-    out = []
-    i = 0
-    for size in plain_groups:
-        chunk = rows_text[i:i + size]
-        i += size
-        last_total = fmt_den(den(chunk[-1].rsplit("|", 1)[1])) if chunk else ""
-        body = sorted(c.rsplit("|", 1)[0] for c in chunk)
-        out += body + ["total=" + last_total]
-    out += rows_text[i:]
-    return out
 
 
 # ---------------------------------------------------------------------------
@@ -444,7 +547,46 @@ def has_elided(j):
     return any(p["amount"] is None for x in j["xacts"] for p in x["posts"])
 
 
+def has_costs(j):
+    return any(p.get("cost") for x in j["xacts"] for p in x["posts"])
+
+
+def gen_cost_journal(rng):
+    """lots bought and sold at prices whose totals are exact at the price commodity's
+    precision (whole quantities of AAA, two-decimal prices), so that -B shows no
+    rounding adjustments; every amount is explicit"""
+    D, E, A = jgen.STD_COMMS[0], jgen.STD_COMMS[1], jgen.STD_COMMS[2]
+    comms = [D, E, A]
+    accts = ACCTS[:rng.choice([3, 5, 9])]
+    d0 = jgen.day_of(2019, 1, 1)
+    xs = []
+    for _ in range(rng.choice([1, 2, 3, 4, 6])):
+        posts = []
+        for _ in range(rng.choice([1, 1, 2])):
+            pc = rng.choice([D, E])
+            q = Fraction(rng.choice([-12, -5, -1, 1, 2, 7, 10, 30]))
+            per_unit = rng.random() < 0.6
+            price = Fraction(rng.randint(1, 5000), 100)
+            tot = price * abs(q) if per_unit else price
+            tot = tot if q > 0 else -tot
+            posts.append({"account": rng.choice(accts), "kind": "real", "state": 0, "amount": jgen.amt(q, A),
+                          "cost": dict(jgen.amt(price, pc), per_unit=per_unit), "assert": None, "note": ""})
+            posts.append({"account": rng.choice(accts), "kind": "real", "state": 0, "amount": jgen.amt(-tot, pc),
+                          "cost": None, "assert": None, "note": ""})
+        if rng.random() < 0.5:
+            pc = rng.choice([D, E])
+            q = Fraction(rng.randint(1, 99999), 100)
+            posts.append({"account": rng.choice(accts), "kind": "real", "state": 0, "amount": jgen.amt(q, pc), "cost": None, "assert": None, "note": ""})
+            posts.append({"account": rng.choice(accts), "kind": "real", "state": 0, "amount": jgen.amt(-q, pc), "cost": None, "assert": None, "note": ""})
+        rng.shuffle(posts)
+        xs.append({"date": d0 + rng.randint(0, 20), "aux": None, "state": rng.choice([0, 0, 1]), "code": "", "payee": "payee %d" % rng.randint(1, 3),
+                   "note": "", "posts": posts})
+    return {"xacts": xs}, comms, "costs"
+
+
 def gen_journal(rng, ctx=None):
+    if rng.random() < 0.2:
+        return gen_cost_journal(rng)
     mode = rng.choice(["virt-apart", "virt-apart", "virt-apart", "no-virt", "raw", "ties", "ties"])
     ncomm = rng.choice([1, 1, 2, 3])
     comms = rng.sample(jgen.STD_COMMS[:4], ncomm)
@@ -477,7 +619,7 @@ def gen_journal(rng, ctx=None):
                            "assert": None, "note": ""} for _ in range(k)] + \
                          [{"account": rng.choice(accts), "kind": "real", "state": 0, "amount": jgen.amt(-q, c), "cost": None,
                            "assert": None, "note": ""} for _ in range(k)]
-            if rng.random() < 0.3:          # a transaction with a single (zero-sum impossible) posting pair collapsed to one virtual posting
+            if rng.random() < 0.3:          # a transaction of a single virtual posting (a group of size 1)
                 x["posts"] = [{"account": "Virt:One", "kind": "virtual", "state": 0, "amount": jgen.amt(q, c), "cost": None,
                                "assert": None, "note": ""}]
     if rng.random() < 0.85:
@@ -512,11 +654,33 @@ def gen_filters(rng, j):
     return fs
 
 
-def options_for(j, rng, tier):
+PAIRS = ["bypayee+subtotal", "dow+subtotal", "subtotal+collapse", "bypayee+collapse", "dow+collapse", "subtotal+depth:1",
+         "bypayee+depth:1", "dow+depth:2", "dow+bypayee", "bypayee+subtotal+collapse", "dow+subtotal+depth:1", "collapse+depth:1",
+         "collapse+depth:0", "subtotal+depth:0"]
+AFTER = ["bypayee+sort:-account", "dow+sort:account,payee", "subtotal+sort:-account", "collapse+sort:payee", "depth:1+sort:-account,date",
+         "depth:2+sortx:-account", "bypayee+sortx:-account", "bypayee+head:1", "bypayee+tail:1", "dow+head:2+tail:1", "collapse+head:2",
+         "collapse+tail:2", "depth:1+head:1+tail:1", "subtotal+head:1", "subtotal+tail:0", "bypayee+subtotal+head:0",
+         "sort:account+head:2", "sort:-date+tail:1", "sortx:account+head:1+tail:1", "dow+collapse+sort:-payee+tail:2"]
+
+
+def options_for(j, rng, costs=False):
     n = len(j["xacts"])
-    opts = ["plain"] + ["sort:" + k for k in SORT_KEYS]
+    opts = ["plain", "subtotal", "collapse", "bypayee", "dow"] + ["depth:%d" % i for i in range(0, 5)]
+    if costs:
+        # annotated (lot) commodities: no amount keys (their order is compare_by_commodity on annotations)
+        opts += ["sort:" + k for k in ("date", "-account", "payee,-date")] + ["sortx:-account", "head:1", "tail:1", "head:1+tail:1"]
+        opts += PAIRS[:8] + AFTER[:6]
+        return opts
+    opts += ["sort:" + k for k in SORT_KEYS]
+    opts += ["sortx:" + k for k in ("account", "-account", "amount", "-amount", "payee,-amount", "-date,account")]
     opts += ["head:%d" % i for i in range(0, n + 3)] + ["tail:%d" % i for i in range(0, n + 3)]
-    opts += ["subtotal", "collapse", "bypayee", "dow"] + ["depth:%d" % i for i in range(0, 5)]
+    # both counts, at the edges 0, 1, count-1, count, count+1, and negative counts (all but the first / last |N|)
+    edge = sorted({0, 1, max(n - 1, 0), n, n + 1})
+    opts += ["head:%d+tail:%d" % (a, b) for a in edge for b in edge if a and b]
+    neg = sorted({-1, -max(n - 1, 1), -n, -(n + 1)})
+    opts += ["head:%d" % a for a in neg] + ["tail:%d" % a for a in neg]
+    opts += ["head:-1+tail:-1", "head:-1+tail:1", "head:1+tail:-1", "head:%d+tail:1" % -n, "head:2+tail:%d" % -(n - 1 or 1)]
+    opts += PAIRS + AFTER
     return opts
 
 
@@ -537,12 +701,22 @@ def run_journal(j, comms, filters, opts, model=True):
     plain = {}
     for (f, o), r in zip(tasks, res):
         if o == "plain":
-            plain[filter_spec(f)] = r
+            plain[filter_key(f)] = r
     for (f, o), r in zip(tasks, res):
-        recs.append({"filter": f, "opt": o, "ledger": r, "plain": plain[filter_spec(f)]})
+        recs.append({"filter": f, "opt": o, "ledger": r, "plain": plain[filter_key(f)]})
     if model:
         js = json.dumps(j)
-        lines = ["regroup.run\t%s\t%s\t%s" % (js, filter_spec(rc["filter"]), rc["opt"]) for rc in recs]
+        by_rows = has_costs(j) or has_elided(j)
+        lines = []
+        for rc in recs:
+            if by_rows or rc["filter"].get("basis"):
+                # lots / valuations: the model is fed ledger's own plain rows (regroup.rows), the valuation is data
+                if rc["plain"][0] == "ok":
+                    lines.append("regroup.rows\t%s%s" % (rc["opt"], "".join("\t" + r.input_text() for r in rc["plain"][1])))
+                else:
+                    lines.append("regroup.rows\t")
+            else:
+                lines.append("regroup.run\t%s\t%s\t%s" % (js, filter_spec(rc["filter"]), rc["opt"]))
         for rc, ans in zip(recs, vflib.driver_run(lines)):
             rc["model"] = ans
     return text, recs
@@ -554,19 +728,6 @@ def ledger_answer(rc):
     if r[0] == "err":
         return ["err", r[1]]
     return ["ok"] + [x.text() for x in r[1]]
-
-
-def plain_group_sizes(rc):
-    """rows per transaction the --depth N output must have (from the plain rows)"""
-    k, _, v = rc["opt"].partition(":")
-    if k != "depth" or rc["plain"][0] != "ok":
-        return None
-    n = int(v)
-    return [len({(depth_account(x.account, n) if n > 0 else "<Total>") for x in g}) for g in groups_by_xact(rc["plain"][1])]
-
-
-def ident_total_free(lines):
-    return [l.rsplit("|", 1)[0] for l in lines]
 
 
 # ---------------------------------------------------------------------------
@@ -609,25 +770,35 @@ def shrink(j, comms, f, opt, fails):
 
 
 def case_fails(j, comms, f, opt):
-    o = opt
-    k, _, v = opt.partition(":")
-    text, recs = run_journal(copy.deepcopy(j), comms, [f], ["plain", o] if o != "plain" else ["plain"], model=False)
-    rc = [r for r in recs if r["opt"] == o][0]
+    text, recs = run_journal(copy.deepcopy(j), comms, [f], ["plain", opt] if opt != "plain" else ["plain"], model=False)
+    rc = [r for r in recs if r["opt"] == opt][0]
     if rc["plain"][0] != "ok":
         return None
-    return oracle(rc["plain"][1], o, rc["ledger"])
+    return oracle(rc["plain"][1], opt, rc["ledger"])
 
 
-def fingerprint(opt, plain):
-    """site of a failure: the option; for --sort the key list, or the known
-    zero/bare-amount defect when ledger's own comparison is not a strict weak
-    order on exactly these rows (then no ordered arrangement exists at all)"""
-    k, _, v = opt.partition(":")
-    if k == "sort" and "amount" in v and plain is not None and not is_swo(plain, key_less_fn(v)):
-        return ZERO_FP
-    if k == "sort":
-        return "C17:sort:" + v
-    return "C17:" + k
+def fingerprint(opt, plain, f=None):
+    """site of a failure: the option kinds; for --sort the key list, or one of the
+    known defects when its precondition holds on exactly these rows"""
+    o = Opts(opt)
+    if o.sort and not o.regroups() and "amount" in o.sort[1] and plain is not None:
+        segs = groups_by_xact(plain) if o.sort[0] else [plain]
+        if any(not is_swo(s, key_less_fn(o.sort[1])) for s in segs):
+            return ZERO_FP            # ledger's own comparison is not a strict weak order here: no ordered arrangement exists
+    if (f or {}).get("basis") and (o.pre or o.subtotal):
+        return EXPR_FP                # -B with subtotal_posts: the amount expression is not applied
+    if o.pre and o.subtotal and plain is not None:
+        # a (payee | weekday, account) group holding two commodities reaches --subtotal as a compound posting
+        groups = {}
+        for r in plain:
+            k = (r.payee if o.pre == "bypayee" else weekday(r.day), r.account)
+            sg = single(r.amount)
+            groups.setdefault(k, set()).update([sg[0]] if sg else ["?", "??"])      # a zero of another commodity also makes a balance
+        if any(len(v) >= 2 for v in groups.values()):
+            return COMPOUND_FP
+    if o.sort and not o.regroups() and o.head is None and o.tail is None:
+        return "C17:%s:%s" % ("sort-xacts" if o.sort[0] else "sort", o.sort[1])
+    return "C17:" + o.kind()
 
 
 def plain_rows_of(j, comms, f):
@@ -642,8 +813,8 @@ def report(ctx, j, comms, f, opt, what):
     small = shrink(j, comms, f, opt, fails)
     e = case_fails(small, comms, f, opt) or what
     text = jgen.render(copy.deepcopy(small), comms)
-    args = ["reg", "--empty", "--format", FMT] + opt_args(opt) + filter_args(f)
-    fp = fingerprint(opt, plain_rows_of(small, comms, f))
+    args = ["reg", "--empty", "--format", FMT] + Opts(opt).args() + filter_args(f)
+    fp = fingerprint(opt, plain_rows_of(small, comms, f), f)
     ctx.violation(fp, e,
                   {"journal": text, "args": args, "plain_args": ["reg", "--empty", "--format", FMT] + filter_args(f),
                    "opt": opt, "filter": f, "oracle": e,
@@ -655,10 +826,10 @@ def report(ctx, j, comms, f, opt, what):
 
 
 def directed_cases():
-    """hand-written journals: the finding's witness, ties, equal keys, N beyond the count"""
+    """hand-written journals: the findings' witnesses, ties, equal keys, N beyond the count"""
     D, E, A = jgen.STD_COMMS[0], jgen.STD_COMMS[1], jgen.STD_COMMS[2]
-    def post(acct, q, c, kind="real", state=0):
-        return {"account": acct, "kind": kind, "state": state, "amount": jgen.amt(Fraction(q), c), "cost": None, "assert": None, "note": ""}
+    def post(acct, q, c, kind="real", state=0, cost=None):
+        return {"account": acct, "kind": kind, "state": state, "amount": jgen.amt(Fraction(q), c), "cost": cost, "assert": None, "note": ""}
     def xact(day, payee, posts, state=0):
         return {"date": jgen.day_of(2020, 1, 1) + day, "aux": None, "state": state, "code": "", "payee": payee, "note": "", "posts": posts}
     cases = []
@@ -669,7 +840,7 @@ def directed_cases():
     cases.append(({"xacts": [xact(2, "same", [post("A:x", 1, D), post("A:x", 1, D), post("B", -2, D)]),
                              xact(2, "same", [post("A:x", 1, D), post("B", -1, D)], state=1),
                              xact(0, "same", [post("A:x", 1, D), post("B", -1, D)])]}, [D], "ties"))
-    # one transaction, one posting pair, two commodities; weekdays spread
+    # four postings in two commodities per transaction; weekdays spread; the (payee, account) groups hold two commodities
     cases.append(({"xacts": [xact(d, "p%d" % (d % 3), [post("Expenses:Food:Out", d + 1, D), post("Expenses:Food", 2, E), post("Assets:Cash", -(d + 1), D), post("Assets:Cash", -2, E)])
                              for d in range(9)]}, [D, E], "weekdays"))
     cases.append(({"xacts": [xact(0, "solo", [post("A", 0, D)])]}, [D], "single-zero"))
@@ -690,22 +861,36 @@ def directed_cases():
                              xact(3, "d", [post("V:y", 5, D, kind="virtual")])]}, [D, E], "size-one-groups"))
     cases.append(({"xacts": [xact(0, "v", [post("A", 5, D), post("A", 1, D, kind="virtual"), post("B", -5, D)]),
                              xact(1, "w", [post("C", 5, D), post("B", -5, D)])]}, [D], "virt-mix"))
+    # --depth rows must come in account-name order whatever the order the accounts were first used in
+    cases.append(({"xacts": [xact(0, "p", [post("Zeta:a", 1, D), post("Alpha:b:c", 2, D), post("Mid", 3, E), post("Alpha:a", 4, D),
+                                           post("Zeta:a", -7, D), post("Mid", -3, E)]),
+                             xact(1, "q", [post("Mid:x", 1, D), post("Alpha", -1, D)])]}, [D, E], "depth-order"))
+    # one commodity: stacked regrouping options lose nothing
+    cases.append(({"xacts": [xact(d, "p%d" % (d % 2), [post("Expenses:Food", d + 1, D), post("Assets:Cash", -(d + 1), D)]) for d in range(8)]},
+                  [D], "one-commodity-stack"))
+    # costs: 10 AAA @ $2, 5 AAA @@ $11, a sale
+    def cost(q, c, per_unit=True):
+        return dict(jgen.amt(Fraction(q), c), per_unit=per_unit)
+    cases.append(({"xacts": [xact(0, "p1", [post("A:x", 10, A, cost=cost(2, D)), post("B:z", -20, D)]),
+                             xact(1, "p2", [post("A:x", 5, A, cost=cost(11, D, False)), post("A:y", 3, E, cost=cost("3/2", D)), post("B:z", "-31/2", D)]),
+                             xact(2, "p1", [post("A:x", -4, A, cost=cost(3, D)), post("B:z", 12, D)])]}, [D, E, A], "costs"))
     return cases
 
 
 def run(tier, seed):
     ctx = Check("C17", tier, seed)
     ctx.rule = ("journals of 1-8 balanced transactions (1-3 commodities, account trees of depth <= 3, real/virtual/balanced-virtual "
-                "postings, states, dates in random order) x limit predicate (none, --real, --cleared, account word) x option "
-                "(plain, 9 sort keys, --head/--tail N for N=0..count+2, --subtotal, --collapse, --by-payee, --dow, --depth 0..4); "
-                "non-trivial = the option changes the rows (order, count or amounts) of a register with >= 2 rows; distinct by "
-                "(journal text, predicate, option)")
+                "postings, states, dates in random order; a costs mode with @/@@ prices) x limit predicate (none, --real, --cleared, "
+                "account word; -B for the costs mode) x option set (plain, 12 sort keys, --sort-xacts, --head/--tail N for N=0..count+2, "
+                "both counts at 0/1/count-1/count/count+1, negative counts, --subtotal, --collapse, --by-payee, --dow, --depth 0..4, "
+                "14 stacks of two or three regrouping options, 20 stacks with sort/truncation); non-trivial = the option set changes "
+                "the rows (order, count or amounts) of a register with >= 2 rows; distinct by (journal text, predicate, option set)")
     ctx.assumptions = ["std::stable_sort is a stable sort (the model's arrangement is proved unique, C17.sort_unique)",
-                       "--depth rows compared per transaction as a set (address order, DESIGN §9-6, is C19's)",
-                       "amounts carry no costs/lots; elided amounts are checked by the oracle only"]
+                       "lot-annotated commodities are opaque names; under costs/-B/elision the model starts from ledger's plain rows",
+                       "regrouping stacked with --sort is exercised with date/payee/account keys only"]
     model_ok = ctx.prepare()
     rng = ctx.rng
-    njournals = 60 if tier == "quick" else 1200
+    njournals = 45 if tier == "quick" else 900
     if ctx.ties_broken:
         # a proof obligation / extractor / build broke: search mode - widen every stream, the oracle decides
         njournals *= 4
@@ -723,16 +908,20 @@ def run(tier, seed):
         journals.append((j, comms, mode))
     seen_fp = set()
     for j, comms, mode in journals:
+        costs = has_costs(j)
         filters = [{}] if mode.startswith("directed") else gen_filters(rng, j)
         if mode == "directed:virt-mix":
             filters = [{}, {"real": True}]
-        opts = options_for(j, rng, tier)
+        if costs:
+            filters = [{}, {"basis": True}] + ([dict(filters[-1], basis=True)] if filters[-1] else [])
+        opts = options_for(j, rng, costs)
         text, recs = run_journal(j, comms, filters, opts, model=model_ok)
         ctx.feature("mode:" + mode.split(":")[0])
         for rc in recs:
             ctx.count()
             opt, f = rc["opt"], rc["filter"]
-            k = opt.partition(":")[0]
+            o = Opts(opt)
+            k = o.kind()
             if rc["plain"][0] != "ok":
                 ctx.feature("plain-rejected")
                 if rc["ledger"][0] == "ok" and rc["ledger"][1]:
@@ -743,15 +932,12 @@ def run(tier, seed):
             # --- tie: the model's rows are ledger's rows
             impl = ledger_answer(rc)
             mod = rc["model"].split("\t") if model_ok else impl
-            sizes = plain_group_sizes(rc)
             ok_tie = True
-            if mod[:2] == ["err", "elided"] and has_elided(j):
-                ctx.feature("tie-skipped:elided-amounts(oracle only)")
-                ok_tie = None
-            elif impl[0] == "ok" and mod[0] == "ok":
-                a, b = canon_rows(impl[1:], opt, sizes), canon_rows(mod[1:], opt, sizes)
-                if a != b:
-                    if k == "sort" and "amount" in opt and not is_swo(plain, key_less_fn(opt.partition(":")[2])):
+            if impl[0] == "ok" and mod[0] == "ok":
+                if impl[1:] != mod[1:]:
+                    segs = groups_by_xact(plain) if (o.sort and o.sort[0]) else [plain]
+                    if o.sort and not o.regroups() and "amount" in o.sort[1] and \
+                            any(not is_swo(s, key_less_fn(o.sort[1])) for s in segs):
                         # no stable arrangement exists for a comparison that is not a strict weak order:
                         # merge sort and libstdc++'s stable_sort may then differ; the oracle decides
                         ctx.feature("tie-skipped:not-strict-weak-order")
@@ -759,9 +945,15 @@ def run(tier, seed):
                     else:
                         ok_tie = False
             elif impl != mod[:2]:
-                ok_tie = False
+                if impl[0] == "err" and mod[0] == "err" and o.pre and o.subtotal and \
+                        {impl[1], mod[1]} <= {"virt-mix", "null-amount"}:
+                    # both refuse; which of two refusals is raised first depends on the interleaving of the
+                    # two handlers at flush time, which the stage-by-stage model does not reproduce
+                    ctx.feature("tie:refusal-kind-order")
+                else:
+                    ok_tie = False
             if ok_tie is False:
-                ctx.tie_broken("corr:regroup.run:" + k, "journal:\n%s\nfilter %s option %s\nledger: %s\nmodel:  %s" % (
+                ctx.tie_broken("corr:regroup:" + k, "journal:\n%s\nfilter %s option %s\nledger: %s\nmodel:  %s" % (
                     text, f, opt, impl[:12], mod[:12]))
                 ctx.extra_cov.setdefault("mismatches", [])
                 if len(ctx.extra_cov["mismatches"]) < 5:
@@ -772,7 +964,7 @@ def run(tier, seed):
             e = oracle(plain, opt, rc["ledger"])
             if e is not None:
                 ctx.feature("oracle-failures")
-                fp0 = fingerprint(opt, plain)
+                fp0 = fingerprint(opt, plain, f)
                 ctx.feature("oracle-failure:" + fp0)
                 if fp0 not in seen_fp and len(seen_fp) < 40:
                     seen_fp.add(fp0)
@@ -781,14 +973,16 @@ def run(tier, seed):
             if rc["ledger"][0] == "err":
                 ctx.feature("refused:" + rc["ledger"][1])
             elif len(plain) >= 2 and [r.full() for r in rc["ledger"][1]] != [r.full() for r in plain]:
-                ctx.nontrivial((text, filter_spec(f), opt))
-                if k == "sort":
+                ctx.nontrivial((text, filter_key(f), opt))
+                if o.sort:
                     ctx.feature("sort-reorders")
             if f:
                 ctx.feature("filtered")
+            if f.get("basis"):
+                ctx.feature("valuation:-B")
             if len({single(r.amount)[0] for r in plain if single(r.amount)}) >= 2:
                 ctx.feature("multi-commodity")
-        if model_ok and not has_elided(j):
+        if model_ok and not has_elided(j) and not costs:
             swo_tie(ctx, j, text, filters, recs)
         ctx.sample({"journal": text[:400], "options": len(opts), "filters": filters}, cap=3)
     oracle_selftest(ctx)
@@ -859,9 +1053,11 @@ def drop_comp(v):
 
 
 def clone(r, **kw):
-    x = Row(r.line, r.xline, r.day, r.virt, r.payee, r.account, r.amount, r.total)
+    x = Row(r.line, r.xline, r.day, r.virt, r.payee, r.account, r.amount, r.value, r.total)
     for k, v in kw.items():
         setattr(x, k, v)
+        if k == "amount" and "value" not in kw:
+            x.value = v
     return x
 
 
@@ -875,8 +1071,10 @@ def oracle_selftest(ctx):
 
 
 def oracle_selftest_one(ctx, j, comms, f):
-    text, recs = run_journal(copy.deepcopy(j), comms, [f], ["plain", "sort:date", "sort:amount", "sort:-amount", "head:2", "tail:2",
-                                                            "subtotal", "collapse", "bypayee", "dow", "depth:1", "depth:2"], model=False)
+    regs = ["subtotal", "collapse", "bypayee", "dow", "depth:1", "depth:2", "subtotal+depth:1", "bypayee+collapse", "dow+depth:1"]
+    text, recs = run_journal(copy.deepcopy(j), comms, [f], ["plain", "sort:date", "sort:amount", "sort:-amount", "sortx:-account",
+                                                            "head:2", "tail:2", "head:1+tail:1", "head:-1", "tail:-2",
+                                                            "bypayee+head:1"] + regs, model=False)
     by = {rc["opt"]: rc for rc in recs}
     plain = by["plain"]["ledger"][1]
     muts = []
@@ -888,20 +1086,40 @@ def oracle_selftest_one(ctx, j, comms, f):
     r = rows("sort:-amount"); r[1], r[2] = r[2], r[1]; muts.append(("sort:-amount", "swapped-neighbours", r))
     r = rows("sort:date"); del r[3]; muts.append(("sort:date", "dropped-row", r))
     r = rows("sort:date"); r[2] = clone(r[2], amount=bump(r[2].amount)); muts.append(("sort:date", "altered-amount", r))
+    r = rows("sortx:-account"); r[0], r[1] = r[1], r[0]; muts.append(("sortx:-account", "swapped-in-transaction", r))
+    k = len(groups_by_xact(plain)[0])
+    r = rows("sortx:-account"); r[k - 1], r[k] = r[k], r[k - 1]; muts.append(("sortx:-account", "swapped-across-transactions", r))
     r = rows("head:2"); del r[-1]; muts.append(("head:2", "one-row-short", r))
     r = rows("head:2"); r.append(clone(plain[len(r)])); muts.append(("head:2", "one-row-long", r))
     r = rows("head:2"); r = r[len(r) // 2:]; muts.append(("head:2", "second-transaction-only", r))
     r = rows("tail:2"); r.insert(0, clone(plain[len(plain) - len(r) - 1])); muts.append(("tail:2", "one-row-long", r))
     r = rows("tail:2"); r = r[:len(r) // 2]; muts.append(("tail:2", "one-transaction-short", r))
-    for o in ["subtotal", "collapse", "bypayee", "dow", "depth:1", "depth:2"]:
+    r = rows("head:1+tail:1"); r = r[:len(r) // 2]; muts.append(("head:1+tail:1", "tail-part-missing", r))
+    r = rows("head:1+tail:1"); r = r[len(r) // 2:]; muts.append(("head:1+tail:1", "head-part-missing", r))
+    r = rows("head:-1"); r = [clone(x) for x in plain]; muts.append(("head:-1", "nothing-dropped", r))
+    r = rows("tail:-2"); r = [clone(x) for x in plain][:-k]; muts.append(("tail:-2", "only-one-dropped", r))
+    r = rows("bypayee+head:1"); r = r + [clone(r[-1])]; muts.append(("bypayee+head:1", "one-row-long", r))
+    for o in regs:
         r = rows(o); r[0] = clone(r[0], amount=bump(r[0].amount)); muts.append((o, "altered-first-amount", r))
         r = rows(o); del r[-1]; muts.append((o, "dropped-last-row", r))
         r = rows(o)
-        k = [i for i, x in enumerate(r) if drop_comp(x.amount)]
-        if k:
-            r[k[0]] = clone(r[k[0]], amount=drop_comp(r[k[0]].amount)); muts.append((o, "lost-second-commodity", r))
+        kk = [i for i, x in enumerate(r) if drop_comp(x.amount)]
+        if kk:
+            r[kk[0]] = clone(r[kk[0]], amount=drop_comp(r[kk[0]].amount)); muts.append((o, "lost-second-commodity", r))
         r = rows(o); r[-1] = clone(r[-1], total=bump(r[-1].total)); muts.append((o, "altered-grand-total", r))
         r = rows(o); r.append(clone(r[0])); muts.append((o, "duplicated-row", r))
+        if o.startswith("depth") and len(r) >= 2:
+            r = rows(o)
+            g = [i for i in range(len(r) - 1) if r[i].payee == r[i + 1].payee and r[i].day == r[i + 1].day and r[i].account != r[i + 1].account]
+            if g:
+                i = g[0]
+                a, b = r[i], r[i + 1]
+                # the two rows of one transaction in the other order, running totals recomputed
+                before = den(r[i - 1].total) if i else {}
+                nb = clone(b, total="B:" + ";".join("%d/%d:0:0:%s" % (q.numerator, q.denominator, c) for c, q in sorted(dsum([before, den(b.value)]).items())))
+                na = clone(a, total=b.total)
+                r[i], r[i + 1] = nb, na
+                muts.append((o, "rows-of-a-transaction-out-of-name-order", r))
     r = rows("plain"); r[3] = clone(r[3], total=bump(r[3].total)); muts.append(("plain", "altered-running-total", r))
     for o, name, r in muts:
         ctx.count()
@@ -909,10 +1127,10 @@ def oracle_selftest_one(ctx, j, comms, f):
         ctx.feature("oracle-selftest:" + name)
         if oracle(plain, o, ("ok", r)) is None:
             ctx.tie_broken("oracle:insensitive:%s:%s" % (o, name), "the oracle accepts a wrong %s output (%s)" % (o, name))
-    # the unmodified outputs are accepted
+    # the unmodified outputs are accepted (the two known subtotal_posts defects aside)
     for o, rc in by.items():
         e = oracle(plain, o, rc["ledger"])
-        if e is not None:
+        if e is not None and fingerprint(o, plain, f) not in (COMPOUND_FP, EXPR_FP, ZERO_FP):
             ctx.tie_broken("oracle:selftest-base:" + o, e)
 
 
@@ -928,18 +1146,24 @@ def malformed(ctx):
              "regroup.run\t%s\treal=0,cleared=0,acct=\tsort:" % js,
              "regroup.run\t%s\treal=0,cleared=0,acct=\tsort:colour" % js,
              "regroup.run\t%s\treal=0,cleared=0,acct=\thead:x" % js,
+             "regroup.run\t%s\treal=0,cleared=0,acct=\tsubtotal+" % js,
+             "regroup.run\t%s\treal=0,cleared=0,acct=\t" % js,
              "regroup.run\t%s" % js,
+             "regroup.rows\tplain\t1|1|18262|0|p|A|A:1/1:2:0:$",              # a row with a field missing
+             "regroup.rows\tplain\t1|1|18262|0|p|A|X:1|A:1/1:2:0:$",          # not a value
+             "regroup.rows\tdepth:x",
              "regroup.swo\t%s\treal=0,cleared=0,acct=\t" % js]
-    want = ["err\telided", "err\tbad-json", "err\tbad-op", "err\tbad-op", "err\tbad-op", "err\tbad-op", "err\tbad-op", "err\tbad-op"]
+    want = ["err\telided", "err\tbad-json"] + ["err\tbad-op"] * 11
     got = vflib.driver_run(lines)
     for l, w, g in zip(lines, want, got):
         ctx.count()
         if w != g:
-            ctx.tie_broken("corr:regroup.run:malformed", "driver answered %r to %r (expected %r)" % (g, l[:80], w))
+            ctx.tie_broken("corr:regroup:malformed", "driver answered %r to %r (expected %r)" % (g, l[:80], w))
     bad = "2020/01/01 p\n    A  $1.00\n    B  $-2.00\n\n2020/01/02 q\n    A  $1.00\n    B\n"
     path = jgen.write_tmp(bad)
     try:
-        for opt in ["plain", "sort:amount", "head:1", "tail:1", "subtotal", "collapse", "bypayee", "dow", "depth:1"]:
+        for opt in ["plain", "sort:amount", "sortx:amount", "head:1", "tail:1", "head:1+tail:1", "subtotal", "collapse", "bypayee", "dow",
+                    "depth:1", "bypayee+subtotal"]:
             ctx.count()
             r = run_ledger(path, {}, opt)
             ctx.feature("malformed-journal")
